@@ -30,6 +30,8 @@ import Hw.Attr.CpuKindsRank
 import Hw.Attr.CpuKindsRefine
 import Hw.Attr.CpuKindsClasses
 import Hw.Attr.CpuKindsAllowedLemmas
+import Hw.Attr.CpuKindsStrategies
+import Hw.Attr.CpuKindsStrategiesAllowed
 namespace Hw.Props.C15
 open Hw Hw.CpuKinds
 
@@ -497,5 +499,327 @@ example :
     let st := run .dflt 0xff [.register (some 0x0f) 2 [("A", "1")] 0, .register (some 0x3c) 1 [("B", "2")] 0]
     st.kinds.length = 3 ∧ (∀ k ∈ st.kinds, k.cpuset ≠ 0) ∧
     st.kinds.Pairwise (fun a b => a.cpuset &&& b.cpuset = 0) ∧ (∀ k ∈ st.kinds, k.infos.Nodup) := by decide
+
+/-! ## A7 — `hwloc_internal_cpukinds_rank` on EVERY array under EVERY strategy, and histories in which
+       HWLOC_CPUKINDS_RANKING changes between the calls
+
+`Hw.Attr.CpuKindsStrategies`.  The theorems above are about reachable states and one fixed strategy; the C function is
+total on kinds arrays and reads the environment variable in every call, so here (a) `rank` is characterised on every
+array (no reachability hypothesis), (b) the choice of the ranking value is stated as propositions (`Sel`), strategy by
+strategy, (c) histories carry a strategy per call (`EOp = Strategy × Op`, `runE`). -/
+
+/-- General shape, EVERY array and EVERY strategy: the output of `hwloc_internal_cpukinds_rank` is a permutation of
+    its input as far as (cpuset, forced efficiency, infos) go, and its efficiencies are all -1 or efficiency i = i
+    (a permutation of 0..nr-1 increasing with the kind index). -/
+theorem C15_rank_shape (strat : Strategy) (ks : List Kind) :
+    ((rank strat ks).map (fun k => (k.cpuset, k.forced, k.infos))).Perm (ks.map (fun k => (k.cpuset, k.forced, k.infos))) ∧
+    ((∀ k ∈ rank strat ks, k.eff = -1) ∨
+     (∀ (i : Nat) (hi : i < (rank strat ks).length), (rank strat ks)[i].eff = (i : Int))) :=
+  ⟨rank_sameCore strat ks, rank_effShape strat ks⟩
+
+/-- EVERY array, EVERY strategy, exactly: at most one kind — efficiency 0; otherwise, with a ranking value chosen the
+    result IS the array sorted by it and renumbered (strictly sorted: the values are pairwise distinct), with none
+    chosen it is the input array in the input order with all efficiencies -1. -/
+theorem C15_rank_spec (strat : Strategy) (ks : List Kind) :
+    (ks.length ≤ 1 → (rank strat ks).map (fun k => (k.cpuset, k.forced, k.infos)) =
+        ks.map (fun k => (k.cpuset, k.forced, k.infos)) ∧ ∀ k ∈ rank strat ks, k.eff = 0) ∧
+    (2 ≤ ks.length →
+      match chooseKey strat ks with
+      | some key => rank strat ks = renumber 0 (sortBy key ks) ∧
+                    (rank strat ks).Pairwise (fun a b => key a < key b) ∧ dupFree (ks.map key) = true ∧
+                    (∀ (i : Nat) (hi : i < (rank strat ks).length), (rank strat ks)[i].eff = (i : Int))
+      | none => rank strat ks = clearEff ks) :=
+  (rank_spec strat ks).2
+
+/-- (1) EVERY kinds array in which all forced efficiencies are known (≠ -1; ≥ -1 and below 2^64 — the C field is an
+    `int` and the public entry point stores -1 for every negative value) and pairwise distinct: after
+    `hwloc_internal_cpukinds_rank` under the default or the `forced_efficiency` strategy the kinds are a permutation of
+    the input, kind index order = strictly increasing forced efficiency, reported efficiency i = i, and for two or more
+    kinds the array is the input sorted by forced efficiency. -/
+theorem C15_rank_consistent_with_forced (strat : Strategy) (hs : strat = .dflt ∨ strat = .forced) (ks : List Kind)
+    (hb : ∀ k ∈ ks, -1 ≤ k.forced ∧ k.forced < 18446744073709551616)
+    (hk : ∀ k ∈ ks, k.forced ≠ -1) (hd : (ks.map (·.forced)).Pairwise (· ≠ ·)) :
+    ((rank strat ks).map (fun k => (k.cpuset, k.forced, k.infos))).Perm (ks.map (fun k => (k.cpuset, k.forced, k.infos))) ∧
+    ((rank strat ks).map (·.forced)).Pairwise (· < ·) ∧
+    (∀ (i : Nat) (hi : i < (rank strat ks).length), (rank strat ks)[i].eff = (i : Int)) ∧
+    (2 ≤ ks.length → rank strat ks = renumber 0 (sortBy forcedKey ks)) :=
+  rank_consistent_with_forced hs ks hb hk hd
+
+/-- the converse for the `forced_efficiency` strategy: one unknown or two equal forced efficiencies among two or more
+    kinds — nothing is reordered and every efficiency is -1 -/
+theorem C15_forced_strategy_fails (ks : List Kind) (h2 : 2 ≤ ks.length)
+    (hb : ∀ k ∈ ks, -1 ≤ k.forced ∧ k.forced < 18446744073709551616)
+    (h : (∃ k ∈ ks, k.forced = -1) ∨ ¬ (ks.map (·.forced)).Pairwise (· ≠ ·)) :
+    rank .forced ks = clearEff ks :=
+  rank_forced_fails ks h2 hb h
+
+/-- WHICH ranking value each value of HWLOC_CPUKINDS_RANKING selects (`Sel s ks key`), spelled out.  `ForcedOK`: every
+    forced efficiency known and the values pairwise distinct; `HaveCT / HaveMax / HaveBase`: EVERY kind has a recognised
+    CoreType / a non-zero FrequencyMaxMHz / a non-zero FrequencyBaseMHz summary; the frequency part of a value is the base
+    frequency iff every kind has one (`haveBaseB`). -/
+theorem C15_strategy_table (ks : List Kind) (key : Kind → Nat) :
+    (Sel .dflt ks key ↔ (ForcedOK ks ∧ key = forcedKey) ∨
+        (¬ ForcedOK ks ∧ ((HaveCT ks ∨ HaveMax ks ∨ HaveBase ks) ∧ (ks.map (ctFreqKey (haveBaseB ks))).Nodup) ∧
+          key = ctFreqKey (haveBaseB ks))) ∧
+    (Sel .noForced ks key ↔ ((HaveCT ks ∨ HaveMax ks ∨ HaveBase ks) ∧ (ks.map (ctFreqKey (haveBaseB ks))).Nodup) ∧
+          key = ctFreqKey (haveBaseB ks)) ∧
+    (Sel .forced ks key ↔ ForcedOK ks ∧ key = forcedKey) ∧
+    (Sel .coretypeFreq ks key ↔ ((HaveCT ks ∨ HaveMax ks ∨ HaveBase ks) ∧ (ks.map (ctFreqKey (haveBaseB ks))).Nodup) ∧
+          key = ctFreqKey (haveBaseB ks)) ∧
+    (Sel .coretypeFreqStrict ks key ↔ ((HaveCT ks ∧ (HaveMax ks ∨ HaveBase ks)) ∧
+          (ks.map (ctFreqKey (haveBaseB ks))).Nodup) ∧ key = ctFreqKey (haveBaseB ks)) ∧
+    (Sel .coretype ks key ↔ (HaveCT ks ∧ (ks.map ctKey).Nodup) ∧ key = ctKey) ∧
+    (Sel .frequency ks key ↔ ((HaveMax ks ∨ HaveBase ks) ∧ (ks.map (freqKey (haveBaseB ks))).Nodup) ∧
+          key = freqKey (haveBaseB ks)) ∧
+    (Sel .freqMax ks key ↔ (HaveMax ks ∧ (ks.map (freqKey false)).Nodup) ∧ key = freqKey false) ∧
+    (Sel .freqBase ks key ↔ (HaveBase ks ∧ (ks.map (freqKey true)).Nodup) ∧ key = freqKey true) ∧
+    (Sel .none ks key ↔ False) :=
+  ⟨Iff.rfl, Iff.rfl, Iff.rfl, Iff.rfl, Iff.rfl, Iff.rfl, Iff.rfl, Iff.rfl, Iff.rfl, Iff.rfl⟩
+
+/-- the model's choice IS that table: `chooseKey s ks = some key ↔ Sel s ks key`, and no value is chosen iff the table
+    selects none -/
+theorem C15_strategy_selects (s : Strategy) (ks : List Kind) :
+    (∀ key, chooseKey s ks = some key ↔ Sel s ks key) ∧ (chooseKey s ks = none ↔ ∀ key, ¬ Sel s ks key) :=
+  ⟨chooseKey_iff_sel s ks, chooseKey_none_iff s ks⟩
+
+/-- the resulting order for EVERY strategy on EVERY array of two or more kinds: when the strategy selects a ranking value
+    the result is the input sorted by it (strictly: the values are pairwise distinct) and renumbered 0..nr-1; when it
+    selects none (requirement not met, or two kinds with the same value) the array is untouched and every efficiency is -1. -/
+theorem C15_rank_by_strategy (s : Strategy) (ks : List Kind) (h2 : 2 ≤ ks.length) :
+    (∀ key, Sel s ks key →
+      rank s ks = renumber 0 (sortBy key ks) ∧ (rank s ks).Pairwise (fun a b => key a < key b) ∧ (ks.map key).Nodup ∧
+      (∀ (i : Nat) (hi : i < (rank s ks).length), (rank s ks)[i].eff = (i : Int))) ∧
+    ((∀ key, ¬ Sel s ks key) → rank s ks = clearEff ks) :=
+  rank_by_strategy s ks h2
+
+/-- the summaries the info-based strategies look at: the LAST FrequencyMaxMHz / FrequencyBaseMHz pair of the kind through
+    `(unsigned) atoi`, 0 without such a pair; the last CoreType pair that says IntelAtom (1) / IntelCore (2), 0 without -/
+theorem C15_info_summary (k : Kind) :
+    (summarize k).maxFreq = freqOf (lastVal "FrequencyMaxMHz" k.infos) ∧
+    (summarize k).baseFreq = freqOf (lastVal "FrequencyBaseMHz" k.infos) ∧
+    (summarize k).coreType = lastCoreType k.infos :=
+  summarize_spec k
+
+/-- the strcmp chain on the value of HWLOC_CPUKINDS_RANKING: unset, `default` and an unrecognised value all mean the
+    default strategy -/
+theorem C15_env_values :
+    parseEnv none = .dflt ∧ parseEnv (some "default") = .dflt ∧ parseEnv (some "bogus_value") = .dflt ∧
+    parseEnv (some "") = .dflt ∧ parseEnv (some "no_forced_efficiency") = .noForced ∧
+    parseEnv (some "forced_efficiency") = .forced ∧ parseEnv (some "coretype+frequency") = .coretypeFreq ∧
+    parseEnv (some "coretype+frequency_strict") = .coretypeFreqStrict ∧ parseEnv (some "coretype") = .coretype ∧
+    parseEnv (some "frequency") = .frequency ∧ parseEnv (some "frequency_max") = .freqMax ∧
+    parseEnv (some "frequency_base") = .freqBase ∧ parseEnv (some "none") = .none := by
+  decide
+
+/-- (2) histories in which HWLOC_CPUKINDS_RANKING changes between the calls (`EOp` = strategy in force × call): the
+    partition / coverage / infos / capacity / efficiency-shape invariant holds against the SAME reference semantics
+    (which never mentions a strategy), and a constant strategy gives back `run`. -/
+theorem C15_env_history_invariant (root : Nat) (h : List EOp) :
+    let ks := (runE root h).kinds
+    let g := runGhost root (h.map (·.2))
+    (∀ k ∈ ks, k.cpuset ≠ 0) ∧ ks.Pairwise (fun a b => a.cpuset &&& b.cpuset = 0) ∧
+    (∀ p, (∃ k ∈ ks, k.cpuset.testBit p = true) ↔ g.cov.testBit p = true) ∧
+    (∀ k ∈ ks, k.infos.Nodup ∧ ∀ p, k.cpuset.testBit p = true → ∀ x, x ∈ k.infos ↔ g.ow p x) ∧
+    ((∀ k ∈ ks, k.eff = -1) ∨ (∀ (i : Nat) (hi : i < ks.length), ks[i].eff = (i : Int))) ∧
+    (∀ strat (h0 : List Op), runE root (h0.map (fun o => (strat, o))) = run strat root h0) :=
+  let H := runE_inv root h
+  ⟨H.k.ne, H.k.dj, H.k.cov, fun k hk => ⟨H.k.nd k hk, H.k.inf k hk⟩, H.eff, fun strat h0 => runE_const strat root h0⟩
+
+/-- after ANY history with changing strategies the array is ranked with respect to the strategy `tag` that was in force
+    at the last call that ran `hwloc_internal_cpukinds_rank` on it (successful register, XML reload, refresh, restrict that
+    dropped a kind): one kind — efficiency 0; two or more — strictly sorted by the value `tag` selects with efficiency
+    i = i, or all -1 when `tag` selects none. -/
+theorem C15_env_history_ranked (root : Nat) (h : List EOp) :
+    let ks := (runE root h).kinds
+    let tag := (runET root h).2
+    (ks.length = 1 → ∀ k ∈ ks, k.eff = 0) ∧
+    (2 ≤ ks.length →
+      match chooseKey tag ks with
+      | some key => ks.Pairwise (fun a b => key a < key b) ∧ ∀ (i : Nat) (hi : i < ks.length), ks[i].eff = (i : Int)
+      | none => ∀ k ∈ ks, k.eff = -1) := by
+  have H := runET_ranked root h
+  rw [runET_fst] at H
+  exact H
+
+/-- every forced efficiency passed to a register call of the history fits a C `int` -/
+def intForcedE (p : EOp) : Bool := intForced p.2
+
+/-- (2) consistency with the forced efficiencies over histories with changing strategies: whenever the last ranking call
+    ran under the default or the `forced_efficiency` strategy and all forced efficiencies are known and pairwise
+    distinct, efficiency = index and the forced efficiencies strictly increase with the index. -/
+theorem C15_rank_consistent_with_forced_history (root : Nat) (h : List EOp) (hI : h.all intForcedE = true)
+    (ht : (runET root h).2 = .dflt ∨ (runET root h).2 = .forced) :
+    let ks := (runE root h).kinds
+    (∀ k ∈ ks, k.forced ≠ -1) → (ks.map (·.forced)).Pairwise (· ≠ ·) →
+    (∀ (i : Nat) (hi : i < ks.length), ks[i].eff = (i : Int)) ∧ (ks.map (·.forced)).Pairwise (· < ·) := by
+  intro ks hk hd
+  have H := runET_ranked root h
+  rw [runET_fst] at H
+  refine ranked_forced_consistent ht H ?_ hk hd
+  apply runE_forced_P (fun x => -1 ≤ x ∧ x < 2147483648) root h
+  intro s cs f i fl hm
+  have := List.all_eq_true.mp hI _ hm
+  simp only [intForcedE, intForced, decide_eq_true_eq] at this
+  split <;> omega
+
+/-- ... in particular for every history that ENDS in a call that ranks under one of these two strategies, whatever the
+    strategies of the earlier calls were -/
+theorem C15_rank_consistent_with_forced_after_rank (root : Nat) (h : List EOp) (p : EOp)
+    (hI : (h ++ [p]).all intForcedE = true) (hr : ranks (runE root h) p = true) (hs : p.1 = .dflt ∨ p.1 = .forced) :
+    let ks := (stepE (runE root h) p).kinds
+    (∀ k ∈ ks, k.forced ≠ -1) → (ks.map (·.forced)).Pairwise (· ≠ ·) →
+    (∀ (i : Nat) (hi : i < ks.length), ks[i].eff = (i : Int)) ∧ (ks.map (·.forced)).Pairwise (· < ·) := by
+  have L := runET_last root h p hr
+  have H := C15_rank_consistent_with_forced_history root (h ++ [p]) hI (by rw [L.1]; exact hs)
+  rw [← runET_fst, L.2] at H
+  exact H
+
+/-- the refinement to the abstract map PU ↦ (forced efficiency, infos) is strategy-blind too -/
+theorem C15_env_history_refinement (root : Nat) (h : List EOp) :
+    Refines (runE root h).kinds (absRun root (h.map (·.2))).map ∧
+    (absRun root (h.map (·.2))).root = (runE root h).root :=
+  runE_refines root h
+
+/-- env-switching histories on INCLUDE_DISALLOWED topologies with `hwloc_topology_allow` calls mixed in reduce to plain
+    env-switching histories (allow calls erased, restricts refused for missing the allowed cpuset turned into refused
+    restricts, every call keeps its strategy): every `runE` / `runET` theorem above holds for `runTE`. -/
+theorem C15_env_allow_history_reduces (root : Nat) (d : Bool) (h : List ETOp) :
+    (runTE root d h).st = runE root (traceTE (tinit root d) h) :=
+  runTE_eq_runE root d h
+
+/-- e.g. the ranking: after ANY such history the array is ranked w.r.t. the strategy of the last ranking call -/
+theorem C15_env_allow_history_ranked (root : Nat) (d : Bool) (h : List ETOp) :
+    Ranked (runET root (traceTE (tinit root d) h)).2 (runTE root d h).st.kinds := by
+  rw [runTE_eq_runE, ← runET_fst]
+  exact runET_ranked root _
+
+/-- the C comment "rank first by coretype (Core >> Atom) then by frequency" holds as long as the frequency summaries stay
+    below 2^20 MHz: the value `(intel_core_type << 20) + freq` then compares kinds lexicographically by (core type,
+    frequency); the core-type summary is at most 2. -/
+theorem C15_coretype_frequency_lexicographic (hb : Bool) (a b : Kind)
+    (ha : freqKey hb a < 1048576) (hb' : freqKey hb b < 1048576) :
+    (ctFreqKey hb a < ctFreqKey hb b ↔
+      (summarize a).coreType < (summarize b).coreType ∨
+      ((summarize a).coreType = (summarize b).coreType ∧ freqKey hb a < freqKey hb b)) ∧
+    (summarize a).coreType ≤ 2 :=
+  ⟨ctFreqKey_lex hb a b ha hb', summarize_coreType_le a⟩
+
+/-- the cross-check the driver performs after every line of the differential run never fails on the model -/
+theorem C15_driver_crosscheck (root : Nat) (h : List EOp) :
+    specOK (runET root h).2 (runET root h).1.kinds = true :=
+  runET_specOK root h
+
+/-- the direct call on ANY state (harness op `rawrank`, after the private writes of `rawset` / `rawswap` made an array no
+    history reaches): a permutation of the array, ranked w.r.t. the strategy in force -/
+theorem C15_direct_rank (strat : Strategy) (st : State) :
+    ((rawRank strat st).kinds.map (fun k => (k.cpuset, k.forced, k.infos))).Perm
+        (st.kinds.map (fun k => (k.cpuset, k.forced, k.infos))) ∧
+    Ranked strat (rawRank strat st).kinds :=
+  ⟨rank_sameCore strat st.kinds, rawRank_ranked strat st⟩
+
+/-- forced efficiencies over the whole range of a C `int` (the internal entry point and private writes can store negative
+    values other than -1; the public call cannot): known and pairwise distinct — the default and `forced_efficiency`
+    strategies sort by the `uint64_t` cast `ukey` (non-negative values in increasing order, then the negative ones) -/
+theorem C15_rank_forced_int_range (strat : Strategy) (hs : strat = .dflt ∨ strat = .forced) (ks : List Kind)
+    (h2 : 2 ≤ ks.length) (hb : ∀ k ∈ ks, -9223372036854775808 ≤ k.forced ∧ k.forced < 9223372036854775808)
+    (hk : ∀ k ∈ ks, k.forced ≠ -1) (hd : (ks.map (·.forced)).Pairwise (· ≠ ·)) :
+    rank strat ks = renumber 0 (sortBy forcedKey ks) ∧
+    (rank strat ks).Pairwise (fun a b => ukey a.forced < ukey b.forced) ∧
+    (∀ (i : Nat) (hi : i < (rank strat ks).length), (rank strat ks)[i].eff = (i : Int)) :=
+  rank_forced_int hs ks h2 hb hk hd
+
+/-- failure of the info-based strategies, EVERY array of two or more kinds: when the requirement of the strategy's row in
+    `C15_strategy_table` is not met the array is untouched and every efficiency is -1 (`no_forced_efficiency` has the
+    requirement of `coretype+frequency`) -/
+theorem C15_info_strategy_fails (s : Strategy) (hs : s ≠ .dflt ∧ s ≠ .forced) (ks : List Kind) (h2 : 2 ≤ ks.length)
+    (hn : ¬ Need (if s = .noForced then .coretypeFreq else s) ks) : rank s ks = clearEff ks :=
+  rank_info_fails s hs ks h2 hn
+
+/-- non-numeric info values: a kind whose LAST FrequencyMaxMHz (FrequencyBaseMHz) value, after white space, is empty or
+    starts with neither a sign nor a digit — `atoi` answers 0 — or which has no such pair, makes `frequency_max`
+    (`frequency_base`) fail for the whole array -/
+theorem C15_nonnumeric_frequency_fails (ks : List Kind) (h2 : 2 ≤ ks.length) (k : Kind) (hk : k ∈ ks) :
+    ((lastVal "FrequencyMaxMHz" k.infos = none ∨ ∃ v, lastVal "FrequencyMaxMHz" k.infos = some v ∧ NonNumeric v) →
+      rank .freqMax ks = clearEff ks) ∧
+    ((lastVal "FrequencyBaseMHz" k.infos = none ∨ ∃ v, lastVal "FrequencyBaseMHz" k.infos = some v ∧ NonNumeric v) →
+      rank .freqBase ks = clearEff ks) :=
+  ⟨rank_freqMax_fails ks h2 k hk, rank_freqBase_fails ks h2 k hk⟩
+
+/-! non-vacuity of the A7 theorems -/
+-- `C15_rank_consistent_with_forced`: an array that is NOT reachable (overlapping cpusets, stale efficiencies) meets the
+-- hypotheses and is reordered
+example :
+    let ks : List Kind := [{ cpuset := 0x3, eff := 7, forced := 20, infos := [] },
+                           { cpuset := 0x6, eff := -1, forced := 0, infos := [("CoreType", "IntelCore")] },
+                           { cpuset := 0x8, eff := 0, forced := 2147483647, infos := [] }]
+    (∀ k ∈ ks, -1 ≤ k.forced ∧ k.forced < 18446744073709551616) ∧ (∀ k ∈ ks, k.forced ≠ -1) ∧
+    (ks.map (·.forced)).Pairwise (· ≠ ·) ∧
+    (rank .dflt ks).map (fun k => (k.cpuset, k.eff, k.forced)) = [(0x6, 0, 0), (0x3, 1, 20), (0x8, 2, 2147483647)] := by
+  decide
+-- `C15_forced_strategy_fails`: a tie
+example :
+    let ks : List Kind := [{ cpuset := 0x3, eff := 0, forced := 5, infos := [] },
+                           { cpuset := 0xc, eff := 1, forced := 5, infos := [] }]
+    2 ≤ ks.length ∧ (∀ k ∈ ks, -1 ≤ k.forced ∧ k.forced < 18446744073709551616) ∧
+    ¬ (ks.map (·.forced)).Pairwise (· ≠ ·) ∧ (rank .forced ks).map (·.eff) = [-1, -1] := by decide
+-- `C15_rank_by_strategy`: `frequency_max` selects a value on this array, `frequency_base` selects none (one kind has a
+-- non-numeric base frequency), `coretype` selects none (both kinds are IntelCore)
+example :
+    let ks : List Kind := [{ cpuset := 0x3, eff := -1, forced := -1,
+                             infos := [("CoreType", "IntelCore"), ("FrequencyMaxMHz", "3000"), ("FrequencyBaseMHz", "abc")] },
+                           { cpuset := 0xc, eff := -1, forced := -1,
+                             infos := [("FrequencyMaxMHz", "9"), ("CoreType", "IntelCore"), ("FrequencyMaxMHz", "1200")] }]
+    (chooseKey .freqMax ks).isSome = true ∧ (rank .freqMax ks).map (fun k => (k.cpuset, k.eff)) = [(0xc, 0), (0x3, 1)] ∧
+    (chooseKey .freqBase ks).isNone = true ∧ (rank .freqBase ks).map (fun k => (k.cpuset, k.eff)) = [(0x3, -1), (0xc, -1)] ∧
+    (chooseKey .coretype ks).isNone = true ∧ (summarize ks[1]).maxFreq = 1200 := by decide
+-- histories with a changing strategy: ranked by forced efficiency, re-ranked by `none`, a restrict that drops nothing
+-- keeps the (now stale) ranking, a refresh under the default strategy restores it
+example :
+    let h : List EOp := [(.none, .register (some 0x0f) 2 [] 0), (.none, .register (some 0xf0) 1 [] 0)]
+    (runE 0xff h).kinds.map (fun k => (k.cpuset, k.eff)) = [(0x0f, -1), (0xf0, -1)] ∧
+    (runET 0xff h).2 = .none ∧
+    (runE 0xff (h ++ [(.forced, .refresh)])).kinds.map (fun k => (k.cpuset, k.eff)) = [(0xf0, 0), (0x0f, 1)] ∧
+    (runET 0xff (h ++ [(.forced, .refresh), (.none, .restrict 0xff), (.none, .dup)])).2 = .forced ∧
+    ranks (runE 0xff h) ((Strategy.forced, Op.refresh) : EOp) = true ∧ (h ++ [((Strategy.forced, Op.refresh) : EOp)]).all intForcedE = true := by decide
+-- `C15_coretype_frequency_lexicographic`: hypotheses met by a hybrid pair; beyond 2^20 the order is no longer lexicographic
+example :
+    let a : Kind := { cpuset := 1, eff := -1, forced := -1, infos := [("CoreType", "IntelAtom"), ("FrequencyBaseMHz", "3000")] }
+    let b : Kind := { cpuset := 2, eff := -1, forced := -1, infos := [("CoreType", "IntelCore"), ("FrequencyBaseMHz", "2000")] }
+    let c : Kind := { cpuset := 4, eff := -1, forced := -1, infos := [("CoreType", "IntelAtom"), ("FrequencyBaseMHz", "2097152")] }
+    freqKey true a < 1048576 ∧ freqKey true b < 1048576 ∧ ctFreqKey true a < ctFreqKey true b ∧
+    ¬ freqKey true c < 1048576 ∧ ctFreqKey true b < ctFreqKey true c := by decide
+-- env-switching history with allow calls: the trace keeps the strategies and erases the allow call
+example :
+    let h : List ETOp := [(.none, .allow (some 0x3f) 4), (.none, .op (.register (some 0x0f) 10 [] 0)),
+                          (.forced, .op (.register (some 0xf0) 5 [] 0)), (.coretype, .op (.restrict 0xc0))]
+    (runTE 0xff true h).st.kinds.map (fun k => (k.cpuset, k.eff)) = [(0xf0, 0), (0x0f, 1)] ∧
+    (traceTE (tinit 0xff true) h).map (·.1) = [.none, .forced, .coretype] ∧
+    (runET 0xff (traceTE (tinit 0xff true) h)).2 = .forced := by decide
+-- private writes: a swapped array with a negative forced efficiency (ranked by its uint64_t cast: after the others)
+example :
+    let st := run .forced 0xff [.register (some 0x0f) 1 [] 0, .register (some 0xf0) 2 [] 0]
+    let st2 := (rawSet (rawSwap st 0 1).1 0 (-7) 99).1
+    st2.kinds.map (fun k => (k.cpuset, k.eff, k.forced)) = [(0xf0, 99, -7), (0x0f, 0, 1)] ∧
+    (rawRank .forced st2).kinds.map (fun k => (k.cpuset, k.eff, k.forced)) = [(0x0f, 0, 1), (0xf0, 1, -7)] := by decide
+-- `C15_rank_forced_int_range`: 5, -7, INT_MIN are known and distinct; the negative ones come last, in increasing order
+example :
+    let ks : List Kind := [{ cpuset := 1, eff := 0, forced := -7, infos := [] }, { cpuset := 2, eff := 0, forced := 5, infos := [] },
+                           { cpuset := 4, eff := 0, forced := -2147483648, infos := [] }]
+    2 ≤ ks.length ∧ (∀ k ∈ ks, -9223372036854775808 ≤ k.forced ∧ k.forced < 9223372036854775808) ∧
+    (∀ k ∈ ks, k.forced ≠ -1) ∧ (ks.map (·.forced)).Pairwise (· ≠ ·) ∧
+    (rank .forced ks).map (fun k => (k.eff, k.forced)) = [(0, 5), (1, -2147483648), (2, -7)] := by decide
+-- `C15_nonnumeric_frequency_fails`: "abc" is NonNumeric and defeats frequency_max; "12abc" is not (atoi = 12)
+example :
+    let k : Kind := { cpuset := 1, eff := -1, forced := -1, infos := [("FrequencyMaxMHz", "3000"), ("FrequencyMaxMHz", "abc")] }
+    lastVal "FrequencyMaxMHz" k.infos = some "abc" ∧ "abc".toList.dropWhile isSpace = ['a', 'b', 'c'] ∧
+    (summarize k).maxFreq = 0 ∧ atoiU32 "12abc" = 12 ∧ atoiU32 "-5" = 4294967291 ∧ atoiU32 "4294967297" = 1 := by decide
+example : NonNumeric "abc" := Or.inr ⟨'a', ['b', 'c'], by decide, by decide, by decide, by decide⟩
+-- `C15_info_strategy_fails`: `coretype` on an array with an unrecognised core type
+example :
+    let ks : List Kind := [{ cpuset := 1, eff := 0, forced := 1, infos := [("CoreType", "IntelAtom")] },
+                           { cpuset := 2, eff := 1, forced := 2, infos := [("CoreType", "Other")] }]
+    ¬ Need .coretype ks ∧ (rank .coretype ks).map (·.eff) = [-1, -1] := by
+  refine ⟨fun h => ?_, by decide⟩
+  exact h _ (List.mem_cons_of_mem _ List.mem_cons_self) (by decide)
 
 end Hw.Props.C15
